@@ -1425,7 +1425,7 @@ def check_property(run, kind, generate):
     else:
         by_code = {}
         for b in bad:
-            by_code.setdefault(b % 8, []).append(b // 8)
+            by_code.setdefault(b % 16, []).append(b // 16)
         run.extra['coq_case_failures'] = {str(k): len(v) for k, v in by_code.items()}
         for code, idxs in sorted(by_code.items()):
             if kind == 'lv' and code == 6:
